@@ -704,13 +704,18 @@ func TestC04Kinds(t *testing.T) {
 // resolvable under each alias; a shape that cannot be served (a struct value of
 // which only the pointer has the interface's methods) has to be refused when it
 // is registered, not when somebody asks for it.
+type aliasOut struct {
+	godi.Out
+	A *kit.N0
+}
+
 func TestC04AliasShapes(t *testing.T) {
 	col := evid.New("C04", "alias-shapes", "one registration with 1-2 interface aliases (godi.As), optionally named or grouped, of every lifetime, whose service is a constructor returning a pointer / a struct by value whose value type implements the interfaces / a struct by value of which only the pointer implements them, or an instance of those; oracle: the registration is rejected, or Build succeeds and every alias identity resolves (from the provider and from a scope, through Get* and the typed helpers) to a non-nil value of the interface type; non-trivial = a by-value shape")
 	defer col.Flush()
 	rapid.Check(t, func(rt *rapid.T) {
-		shape := rapid.IntRange(0, 5).Draw(rt, "shape")
+		shape := rapid.IntRange(0, 7).Draw(rt, "shape")
 		var svc any
-		names := []string{"ctor-pointer", "ctor-value-implements", "ctor-value-pointer-implements", "instance-pointer", "instance-value-implements", "instance-value-pointer-implements"}
+		names := []string{"ctor-pointer", "ctor-value-implements", "ctor-value-pointer-implements", "instance-pointer", "instance-value-implements", "instance-value-pointer-implements", "ctor-multi-return", "ctor-result-object"}
 		switch shape {
 		case 0:
 			svc = func() *kit.N0 { return &kit.N0{} }
@@ -724,6 +729,12 @@ func TestC04AliasShapes(t *testing.T) {
 			svc = kit.N4{B: &kit.Base{}}
 		case 5:
 			svc = valSvc{}
+		case 6:
+			// several services from one constructor: an option that names "the value" is either
+			// applied (the alias resolves) or refused - not dropped
+			svc = func() (*kit.N0, *kit.N1) { return &kit.N0{}, &kit.N1{} }
+		case 7:
+			svc = func() aliasOut { return aliasOut{A: &kit.N0{}} }
 		}
 		life := rapid.IntRange(0, 2).Draw(rt, "life")
 		opts := []godi.AddOption{godi.As[kit.I0]()}
@@ -741,7 +752,7 @@ func TestC04AliasShapes(t *testing.T) {
 			opts = append(opts, godi.Group(group))
 		}
 		canon := fmt.Sprintf("%s life=%d aliases=%d key=%q group=%q", names[shape], life, len(opts), key, group)
-		col.Case(shape == 1 || shape == 2 || shape == 4 || shape == 5, canon, canon, "shape:"+names[shape])
+		col.Case(shape != 0 && shape != 3, canon, canon, "shape:"+names[shape])
 		c := godi.NewCollection()
 		var err error
 		switch life {
